@@ -70,7 +70,7 @@ theorem runTerm_agree (t : Term) {s s' : RS} (h : AgreeFF s s') :
   | raise1 e => exact ⟨h, rfl⟩
   | raiseMulti es me => exact ⟨h, rfl⟩
   | assertFail e ds => simp only [runTerm, and_true]; rw [agreeFF_iff]; simp [*]
-  | fixtureFail ds e se => simp only [runTerm, and_true]; rw [agreeFF_iff]; simp [*]
+  | fixtureFail ds e ces se => simp only [runTerm, and_true]; rw [agreeFF_iff]; simp [*]
   | expectFailure r eo x =>
     have : AgreeFF { s with details := dset s.details nmReason (.reason r) }
         { s' with details := dset s'.details nmReason (.reason r) } := by rw [agreeFF_iff]; simp [*]
